@@ -227,8 +227,15 @@ var refLibrary = []*gt{
 // ---------------------------------------------------------------------------
 
 type refSubst struct {
-	m     map[int]*gt
-	alloc *int // nodes built by apply (budgeted: eager substitution can blow terms up exponentially)
+	m    map[int]*gt
+	work *int // term nodes visited (budgeted: terms share subterms, their size as trees can explode)
+}
+
+func (th refSubst) tick() {
+	*th.work++
+	if *th.work > refMaxWork {
+		panic(refAbort{"size"})
+	}
 }
 
 func (th refSubst) walk(t *gt) *gt {
@@ -243,6 +250,7 @@ func (th refSubst) walk(t *gt) *gt {
 }
 
 func (th refSubst) occurs(v int, t *gt) bool {
+	th.tick()
 	t = th.walk(t)
 	if t.kind == "var" {
 		return t.v == v
@@ -262,6 +270,7 @@ const (
 )
 
 func (th refSubst) unify(a, b *gt) int {
+	th.tick()
 	a, b = th.walk(a), th.walk(b)
 	if a.kind == "var" && b.kind == "var" && a.v == b.v {
 		return refOK
@@ -315,6 +324,7 @@ func (th refSubst) apply(t *gt) *gt {
 	if len(th.m) == 0 {
 		return t
 	}
+	th.tick()
 	t = th.walk(t)
 	if t.kind != "app" {
 		return t
@@ -329,10 +339,6 @@ func (th refSubst) apply(t *gt) *gt {
 	}
 	if !changed {
 		return t
-	}
-	*th.alloc += len(args) + 1
-	if *th.alloc > refMaxAlloc {
-		panic(refAbort{"size"})
 	}
 	return gApp(t.s, args...)
 }
@@ -390,7 +396,7 @@ type refInterp struct {
 	crossNoMatch    int // a ball passed a catch/3 whose catcher did not unify
 	caught          int
 	peakRD          int
-	alloc           int
+	work            int
 }
 
 func refSubstFrames(th refSubst, fs []refFrame) []refFrame {
@@ -438,12 +444,31 @@ func (ri *refInterp) bodyAlts(b *gt, d int) []refAlt {
 
 func refRaise(ball *gt) refRes { return refRes{stop: stopRaised, ball: ball} }
 
-func refTermSize(t *gt) int {
-	n := 1
-	for _, a := range t.args {
-		n += refTermSize(a)
+// refSizeOver: does the term (as a tree) have more than limit nodes?
+func refSizeOver(t *gt, limit int) bool {
+	var count func(t *gt) bool
+	n := 0
+	count = func(t *gt) bool {
+		n++
+		if n > limit {
+			return true
+		}
+		for _, a := range t.args {
+			if count(a) {
+				return true
+			}
+		}
+		return false
 	}
-	return n
+	return count(t)
+}
+
+func (ri *refInterp) checkSize(ts ...*gt) {
+	for _, t := range ts {
+		if refSizeOver(t, ri.maxSize) {
+			panic(refAbort{"size"})
+		}
+	}
 }
 
 func (ri *refInterp) tick() {
@@ -460,7 +485,7 @@ func (ri *refInterp) tick() {
 }
 
 func (ri *refInterp) unify(a, b *gt) (refSubst, int) {
-	th := refSubst{m: map[int]*gt{}, alloc: &ri.alloc}
+	th := refSubst{m: map[int]*gt{}, work: &ri.work}
 	st := th.unify(a, b)
 	if st == refSTO {
 		panic(refAbort{"sto"})
@@ -596,9 +621,7 @@ func (ri *refInterp) solve(d, nv int, frames []refFrame, q *gt, limit int) refRe
 	defer func() { ri.rdepth-- }()
 	ri.tick()
 	if len(frames) == 0 {
-		if refTermSize(q) > ri.maxSize {
-			panic(refAbort{"size"})
-		}
+		ri.checkSize(q)
 		st := stopExhausted
 		if limit == 1 {
 			st = stopFull
@@ -693,6 +716,7 @@ func (ri *refInterp) solve(d, nv int, frames []refFrame, q *gt, limit int) refRe
 			return refRaise(sub.ball)
 		}
 		nv2 := nv
+		ri.checkSize(sub.answers...)
 		copies := make([]*gt, len(sub.answers))
 		for i, t := range sub.answers {
 			copies[i], nv2 = refFreshen(t, nv2)
@@ -709,6 +733,7 @@ func (ri *refInterp) solve(d, nv int, frames []refFrame, q *gt, limit int) refRe
 				return r
 			}
 		}
+		ri.checkSize(r.ball)
 		ball, nv2 := refFreshen(r.ball, nv)
 		th, st := ri.unify(args[1], ball)
 		if st == refFail {
@@ -723,6 +748,9 @@ func (ri *refInterp) solve(d, nv int, frames []refFrame, q *gt, limit int) refRe
 		r2 := ri.solve(d, nv2, refSubstFrames(th, refCat([]refFrame{{g: refCall1(args[2]), level: l}}, rest)), th.apply(q), lim)
 		r2.answers = append(append([]*gt{}, r.answers...), r2.answers...)
 		return r2
+	}
+	if (f == "==" || f == "\\==") && len(args) == 2 {
+		ri.checkSize(args...)
 	}
 	if st := refBuiltin(f, args); st != nil {
 		switch st.kind {
@@ -822,7 +850,7 @@ const (
 	refMaxSteps = 3000
 	refMaxRD    = 1500
 	refMaxSize  = 400
-	refMaxAlloc = 200000
+	refMaxWork  = 300000
 )
 
 func refSolveQuery(prog []*gt, query *gt, max int, iso bool) (out refOutcome) {
@@ -853,6 +881,7 @@ func refSolveQuery(prog []*gt, query *gt, max int, iso bool) (out refOutcome) {
 	case stopFull:
 		out.end = "more"
 	case stopRaised:
+		ri.checkSize(r.ball)
 		if r.ball.is("error", 2) {
 			out.end = "err " + refCanon(r.ball.args[0], 0, map[int]int{}).String()
 		} else {
